@@ -20,36 +20,56 @@ def plainRun : Bytes → Nat → Nat
   | c :: r, k + 1 => if isPlainQ c then 1 + plainRun r k else 0
   | _, _ => 0
 
-/-- the outer `while (*pos != '"' && len > (pos-start))` loop followed by the closing-quote test.
-`none` = return 0 (`val` cleaned), `some v` = return 1 with `*val = v`. Fuel bounds the number of iterations. -/
+/-- outcome of one round of the outer loop -/
+inductive QsStep
+  | fail                              -- `val->clean(); return 0`
+  | finish (v : Bytes)                -- the loop ended and `*pos == '"'`: `return 1`
+  | next (pos : Nat) (val : Bytes)    -- `continue` / fall through to the next round
+  deriving DecidableEq, Repr
+
+/-- `if (*pos == '\n') { ++pos; if ((pos-start) > len || (*pos != ' ' && *pos != '\t')) fail; val->append(" "); ++pos; continue; }`
+(`pos` points at the LF) -/
+def qsLf (t : Bytes) (len pos : Nat) (val : Bytes) : QsStep :=
+  let pos2 := pos + 1
+  if pos2 > len ∨ (cget t pos2 ≠ 32 ∧ cget t pos2 ≠ 9) then .fail
+  else .next (pos2 + 1) (val ++ [32])
+
+/-- `end = pos; while (end < start+len && plain(*end)) ++end; if (CTL other than CR LF, or DEL at *end) fail;
+val->append(pos, end-pos); pos = end` -/
+def qsRun (t : Bytes) (len pos : Nat) (val : Bytes) : QsStep :=
+  let run := plainRun (t.drop pos) (len - pos)
+  let ce := cget t (pos + run)
+  if (ce ≤ 0x1F ∧ ce ≠ 13 ∧ ce ≠ 10) ∨ ce = 0x7F then .fail
+  else .next (pos + run) (val ++ (t.drop pos).take run)
+
+/-- the rest of the loop body: `bool quoted = (*pos == '\\'); if (quoted) { ++pos; if (!*pos || (pos-start) > len) fail }`,
+then the run of plain octets -/
+def qsPlain (t : Bytes) (len pos : Nat) (val : Bytes) : QsStep :=
+  if cget t pos = 92 then
+    if cget t (pos + 1) = 0 ∨ pos + 1 > len then .fail else qsRun t len (pos + 1) val
+  else qsRun t len pos val
+
+/-- one evaluation of the loop condition `*pos != '"' && len > (pos-start)` and, if it holds, of the body -/
+def qsStep (t : Bytes) (len pos : Nat) (val : Bytes) : QsStep :=
+  let c := cget t pos
+  if ¬ (c ≠ 34 ∧ len > pos) then
+    -- after the loop: `if (*pos != '\"') fail`
+    if c = 34 then .finish val else .fail
+  else if c = 13 then
+    -- `if (*pos == '\r') { ++pos; if ((pos-start) > len || *pos != '\n') fail }` and then the LF branch
+    if pos + 1 > len ∨ cget t (pos + 1) ≠ 10 then .fail else qsLf t len (pos + 1) val
+  else if c = 10 then qsLf t len pos val
+  else qsPlain t len pos val
+
+/-- the outer `while` loop followed by the closing-quote test.
+`none` = return 0 (`val` cleaned), `some v` = return 1 with `*val = v`. Fuel bounds the number of rounds. -/
 def qsLoop (t : Bytes) (len : Nat) : Nat → Nat → Bytes → Option Bytes
   | 0, _, _ => none
   | f + 1, pos, val =>
-    let c := cget t pos
-    if ¬ (c ≠ 34 ∧ len > pos) then
-      -- after the loop: `if (*pos != '\"') fail`
-      if c = 34 then some val else none
-    else
-      -- `if (*pos == '\r') { ++pos; if ((pos-start) > len || *pos != '\n') fail }`
-      let pos1 := if c = 13 then pos + 1 else pos
-      if c = 13 ∧ (pos1 > len ∨ cget t pos1 ≠ 10) then none
-      else if cget t pos1 = 10 then
-        -- `if (*pos == '\n') { ++pos; if ((pos-start) > len || (*pos != ' ' && *pos != '\t')) fail; val->append(" "); ++pos; continue }`
-        let pos2 := pos1 + 1
-        if pos2 > len ∨ (cget t pos2 ≠ 32 ∧ cget t pos2 ≠ 9) then none
-        else qsLoop t len f (pos2 + 1) (val ++ [32])
-      else
-        -- `bool quoted = (*pos == '\\'); if (quoted) { ++pos; if (!*pos || (pos-start) > len) fail }`
-        let quoted := cget t pos1 = 92
-        let pos3 := if quoted then pos1 + 1 else pos1
-        if quoted ∧ (cget t pos3 = 0 ∨ pos3 > len) then none
-        else
-          -- `end = pos; while (end < start+len && plain(*end)) ++end;`
-          let e := pos3 + plainRun (t.drop pos3) (len - pos3)
-          let ce := cget t e
-          -- `if (CTL other than CR LF, or DEL at *end) fail`
-          if (ce ≤ 0x1F ∧ ce ≠ 13 ∧ ce ≠ 10) ∨ ce = 0x7F then none
-          else qsLoop t len f e (val ++ (t.drop pos3).take (e - pos3))   -- `val->append(pos, end-pos); pos = end`
+    match qsStep t len pos val with
+    | .fail => none
+    | .finish v => some v
+    | .next pos' val' => qsLoop t len f pos' val'
 
 /-- `httpHeaderParseQuotedString(start, len, &val)` -/
 def parseQuoted (start : Bytes) (len : Nat) : Option Bytes :=
